@@ -403,3 +403,16 @@ pub fn gen_sources(rng: &mut Rng, n: usize) -> Vec<usize> {
     all.truncate(k.min(n));
     all
 }
+
+// ---------------------------------------------------------------------------------------
+// Observation through the public API: `[order [vertices] [[u v] …]]`
+// ---------------------------------------------------------------------------------------
+
+/// What a user can see of an unweighted digraph: order, vertices, arcs (in iteration order).
+pub fn observe<D>(d: &D) -> V
+where
+    D: graaf::Order + graaf::Vertices + graaf::Arcs,
+{
+    V::L(vec![V::u(d.order()), V::us(d.vertices()), V::pairs(d.arcs())])
+}
+
